@@ -210,6 +210,23 @@ pub fn case(tape: &[u32]) -> CaseOutcome {
         log.push(json!({"file": i, "tree": j, "lazy": lazy, "cancel_from_poll": cancel, "result": got.short()}));
         if cancel.is_some() {
             failed_or_cancelled = true;
+            // the same cancelled run, with a freshly loaded file on a fresh thread
+            let alone = std::thread::scope(|s| {
+                s.spawn(|| match load(&progs[i].dsl) {
+                    Ok(Ok(fresh)) => execute(&fresh, &progs[i].dsl, &trees[j], &sources[j], &progs[i].globals, lazy, cancel),
+                    _ => Transcript::Panic("fresh load failed".into()),
+                })
+                .join()
+                .unwrap_or(Transcript::Panic("thread panicked".into()))
+            });
+            report.evaluations += 1;
+            if got != alone {
+                return CaseOutcome::Fail(Failure::new(
+                    "C12:history-changes-cancelled-result",
+                    format!("after a history of executions on one thread, file {} on tree {} (lazy={}) cancelled from poll {:?} gives {} instead of {}", i, j, lazy, cancel, got.short(), alone.short()),
+                    json!({"programs": progs.iter().map(|p| p.dsl.clone()).collect::<Vec<_>>(), "sources": sources, "history": log, "isolated": format!("{:?}", alone), "in_history": format!("{:?}", got)}),
+                ));
+            }
             continue;
         }
         let want = &isolated[&(i, j, lazy)];
@@ -441,7 +458,7 @@ fn pinned_address_order() -> CaseOutcome {
 
 pub fn spec(tier: &str) -> Spec {
     let mut s = Spec::new("C12", tier, 1_500, 15_000, 900);
-    s.rule = "per case 1-3 generated files (valid and single-fault) x 1-3 trees. (a) every text is loaded twice (equal AST) and a rejected text whose diagnostic involves hash-ordered collections six times (one diagnostic); (b) the isolated result of every (file, tree, mode) is computed twice on fresh threads with freshly loaded files and must be identical in every observable form (pretty_print text, JSON value, observed graph incl. node numbering, or error text plain and pretty); (c) a history of 4-9 executions on the long-lived worker thread with the files loaded once - mixed files, trees and modes, a fifth of them cancelled at a random poll - where every uncancelled result must equal the isolated one, then 8 concurrent threads sharing one &File, each equal to the isolated result; the caller's Variables are compared before / after every execution. (d) 3 (quick) / 8 (thorough) child processes given the same seed must print identical transcripts (observed graphs, pretty output, error texts). evaluations = executions. Non-trivial: >=2 trees, >=2 successful isolated results, a graph with >=2 attributes. Distinct = fingerprint of (files, sources).".into();
+    s.rule = "per case 1-3 generated files (valid and single-fault) x 1-3 trees. (a) every text is loaded twice (equal AST) and a rejected text whose diagnostic involves hash-ordered collections six times (one diagnostic); (b) the isolated result of every (file, tree, mode) is computed twice on fresh threads with freshly loaded files and must be identical in every observable form (pretty_print text, JSON value, observed graph incl. node numbering, or error text plain and pretty); (c) a history of 4-9 executions on the long-lived worker thread with the files loaded once - mixed files, trees and modes, a fifth of them cancelled at a random poll - where every result, cancelled or not, must equal the isolated one, then 8 concurrent threads sharing one &File, each equal to the isolated result; the caller's Variables are compared before / after every execution. (d) 3 (quick) / 8 (thorough) child processes given the same seed must print identical transcripts (observed graphs, pretty output, error texts). evaluations = executions. Non-trivial: >=2 trees, >=2 successful isolated results, a graph with >=2 attributes. Distinct = fingerprint of (files, sources).".into();
     s.assumptions = vec![
         "thread interleavings are whatever the OS produces (all state is call-local; this part is a smoke check)".into(),
         "JSON syntax-node ids are per-parse handles: compared within one process on one Tree only".into(),
